@@ -772,8 +772,12 @@ func (s *scanner) ReadStreamData(dict Dict) (stm *Stream, err error) {
 	lengthObj, hasLength := dict["Length"]
 	declared := int64(-1)
 	if hasLength {
-		if n, err := s.getInt(lengthObj); err == nil && n >= 0 {
+		n, err := s.getInt(lengthObj)
+		if err == nil && n >= 0 {
 			declared = int64(n)
+		} else if IsReadError(err) {
+			// only a malformed /Length may be recovered from
+			return nil, err
 		}
 	}
 
@@ -813,7 +817,14 @@ func (s *scanner) ReadStreamData(dict Dict) (stm *Stream, err error) {
 	}
 
 	var l int64
-	if declared >= 0 && endstreamAt(origReader, start+declared) {
+	lengthOK := false
+	if declared >= 0 {
+		lengthOK, err = endstreamAt(origReader, start+declared)
+		if err != nil {
+			return nil, err
+		}
+	}
+	if lengthOK {
 		l = declared
 		err = s.Discard(l)
 		if err != nil {
@@ -837,7 +848,10 @@ func (s *scanner) ReadStreamData(dict Dict) (stm *Stream, err error) {
 			return nil, err
 		}
 		l = eolPos - start
-		l = trimTrailingEOL(origReader, start, l)
+		l, err = trimTrailingEOL(origReader, start, l)
+		if err != nil {
+			return nil, err
+		}
 	}
 
 	// /Length describes one serialisation of the stream rather than the
@@ -860,9 +874,11 @@ func (s *scanner) ReadStreamData(dict Dict) (stm *Stream, err error) {
 // \r\n removed.  The bytes before "endstream" are an EOL per spec
 // (PDF 7.3.8.2) and must not be considered part of the stream
 // content.
-func trimTrailingEOL(r io.ReaderAt, start, length int64) int64 {
+//
+// A failure of the byte source is returned as an error.
+func trimTrailingEOL(r io.ReaderAt, start, length int64) (int64, error) {
 	if length <= 0 {
-		return length
+		return length, nil
 	}
 	var probe [2]byte
 	readAt := start + length - int64(len(probe))
@@ -871,9 +887,12 @@ func trimTrailingEOL(r io.ReaderAt, start, length int64) int64 {
 		readAt = start
 		readLen = int(length)
 	}
-	n, _ := r.ReadAt(probe[:readLen], readAt)
+	n, err := r.ReadAt(probe[:readLen], readAt)
+	if err != nil && err != io.EOF && n < readLen {
+		return 0, err
+	}
 	if n == 0 {
-		return length
+		return length, nil
 	}
 	switch probe[n-1] {
 	case '\n':
@@ -884,18 +903,22 @@ func trimTrailingEOL(r io.ReaderAt, start, length int64) int64 {
 	case '\r':
 		length--
 	}
-	return length
+	return length, nil
 }
 
 // endstreamAt reports whether the bytes at absolute offset pos, after any run
 // of PDF whitespace, begin with the "endstream" keyword.  ReadStreamData uses
 // it to confirm a declared /Length before trusting it; a length that fails
 // this check is treated as broken and the stream extent is recovered by
-// scanning for endstream instead.
-func endstreamAt(r io.ReaderAt, pos int64) bool {
+// scanning for endstream instead.  A failure of the byte source is not a
+// broken length; it is returned as an error.
+func endstreamAt(r io.ReaderAt, pos int64) (bool, error) {
 	var buf [64]byte
 	for {
-		n, _ := r.ReadAt(buf[:], pos)
+		n, err := r.ReadAt(buf[:], pos)
+		if err != nil && err != io.EOF && n < len(buf) {
+			return false, err
+		}
 		i := 0
 		for i < n && class[buf[i]] == space {
 			i++
@@ -905,13 +928,16 @@ func endstreamAt(r io.ReaderAt, pos int64) bool {
 			break
 		}
 		if n < len(buf) {
-			return false // reached EOF inside the whitespace run
+			return false, nil // reached EOF inside the whitespace run
 		}
 		pos += int64(n)
 	}
 	var kw [9]byte // len("endstream")
-	n, _ := r.ReadAt(kw[:], pos)
-	return n == len(kw) && string(kw[:]) == "endstream"
+	n, err := r.ReadAt(kw[:], pos)
+	if err != nil && err != io.EOF && n < len(kw) {
+		return false, err
+	}
+	return n == len(kw) && string(kw[:]) == "endstream", nil
 }
 
 func (s *scanner) ReadHeaderVersion() (Version, error) {
